@@ -320,10 +320,14 @@ func evalSteps(v any, steps []SelStep) (any, error) {
 					}
 					switch y := x.(type) {
 					case float64:
-						if y != math.Trunc(y) || math.Abs(y) > 1e15 {
-							return nil, domain("|string on a fractional number")
+						if math.IsNaN(y) || math.IsInf(y, 0) {
+							return nil, domain("|string on a non-finite number")
 						}
-						out[f.Key] = strconv.FormatInt(int64(y), 10)
+						if y == 0 {
+							y = 0 // -0 is 0
+						}
+						// the decimal text of the number, whole or fractional
+						out[f.Key] = strconv.FormatFloat(y, 'f', -1, 64)
 					case string:
 						out[f.Key] = y
 					case bool:
@@ -332,6 +336,10 @@ func evalSteps(v any, steps []SelStep) (any, error) {
 						return nil, domain("|string on %T", x)
 					}
 				case "number":
+					if num, ok := x.(float64); ok {
+						out[f.Key] = num // a number stays the number it is
+						continue
+					}
 					str, ok := x.(string)
 					if !ok {
 						return nil, selErr("|number on %T", x)
